@@ -241,7 +241,7 @@ def run(ctx, host=None):
     # rules of other properties that are necessary conditions of this one too: recovery after a fault assumes packs are append-only and only repack removes pack files (C13)
     if host is None:
         from ..report import host_modules
-        host_modules(chk, ctx, ['C13'])
+        host_modules(chk, ctx, ['C13', 'C05'])
 
     return chk.finish(
         explanation=('Static analysis on control-flow graphs with exception edges from every call/raise/assert to the innermost handler, '
